@@ -670,7 +670,15 @@ macro_rules! impl_tuples {
                 format!("[{}]", [$(<$i as $crate::TS>::name()),*].join(", "))
             }
             fn inline() -> String {
-                panic!("tuple cannot be inlined!");
+                format!("[{}]", [$(<$i as $crate::TS>::inline()),*].join(", "))
+            }
+            fn visit_dependencies(v: &mut impl TypeVisitor)
+            where
+                Self: 'static
+            {
+                $(
+                    <$i as $crate::TS>::visit_dependencies(v);
+                )*
             }
             fn visit_generics(v: &mut impl TypeVisitor)
             where
@@ -1040,7 +1048,11 @@ impl<I: TS> TS for Range<I> {
     }
 
     fn inline() -> String {
-        panic!("{} cannot be inlined", <Self as crate::TS>::name())
+        format!(
+            "{{ start: {}, end: {}, }}",
+            <I as crate::TS>::inline(),
+            <I as crate::TS>::inline()
+        )
     }
 
     fn inline_flattened() -> String {
